@@ -19,7 +19,9 @@
      WTop      loop head: RLock; if state == hotRestartState { sleep; continue }; pool := sm.pools[id]
      WSelect   select { <-pool.Session().CloseChan() ; <-sm.ctx.Done() }
      WWait     pool closed; select { <-sm.ctx.Done() ; <-rebuildTimer.C }
-     WCompare  timer fired: Lock; compare epochs; dial; store
+     WCompare  timer fired: sm.Lock(); sm.pools[id] != pool ? break : newClientSession(...); sm.Unlock()
+               (identity check and dial in ONE critical section, after the wait)
+     WStore    the dial succeeded, the lock is released: session.manager = sm; pool.session.Store(session)
      WExit     returned
    Timers: [TimerFires] may happen at any step while the manager is not closed.  After cancel the
    timer case can only win the select if it fired before the cancel, which is the interleaving
@@ -34,7 +36,8 @@ Record pobj := {
   o_epoch : Z;        (* pool.Session().epochID *)
   o_alive : bool;     (* session not closed *)
   o_slot : nat;       (* ghost: the pool id this object was created for *)
-  o_by : Z }.         (* ghost: who created the current session: 0 NewSessionManager, 1 hot restart, 2 watcher *)
+  o_by : Z;           (* ghost: who created the current session: 0 NewSessionManager, 1 hot restart, 2 watcher *)
+  o_pending : option Z }. (* a watcher has dialled a replacement (of this epoch) for this object and not stored it yet *)
 
 (* the statements of SessionManager.Close, one shared-state action each; the closing of sm.pools and of
    the parked pools happens in ONE critical section of sm's lock (the lock of the hot-restart handler
@@ -44,7 +47,7 @@ Inductive cstep := CCancel | CWait | CCloseAll.
    closed; reservePools = nil; sm.Unlock() *)
 Definition close_prog : list cstep := [CCancel; CWait; CCloseAll].
 
-Inductive wpc := WTop | WSelect | WWait | WCompare | WExit.
+Inductive wpc := WTop | WSelect | WWait | WCompare | WStore | WExit.
 Record watcher := { w_pc : wpc; w_pool : nat }.
 
 Record rstate := {
@@ -56,14 +59,18 @@ Record rstate := {
   watchers : list watcher;
   created : nat;                   (* sessions created by watchers *)
   bad : nat;                       (* ... of which stored into a pool object that was not sm.pools[id] any more *)
-  cprog : list cstep }.            (* what SessionManager.Close still has to do (the whole body before it is called) *)
+  cprog : list cstep;
+  check_early : bool }.            (* false = the code: the identity check is made AFTER the rebuild wait, in the critical
+                                      section of the dial.  true = a variant that checks before the wait and dials
+                                      unconditionally afterwards (kept to show what the theorems depend on) *)            (* what SessionManager.Close still has to do (the whole body before it is called) *)
 
 Inductive revent :=
 | WLoad (id : nat)
 | WakeClose (id : nat)
 | WakeCtx (id : nat)
 | TimerFires (id : nat)
-| Compare (id : nat) (ok : bool)           (* ok = newClientSession succeeds (server reachable) *)
+| Compare (id : nat) (ok : bool)           (* the critical section after the wait; ok = newClientSession succeeds *)
+| Store (id : nat)                         (* pool.session.Store(session), after sm.Unlock() *)
 | SessionLost (o : nat)                    (* the session of pool object o dies by itself *)
 | HREvent (i : nat) (e : Z) (ok : bool)    (* handleSessionManagerHotRestart for sessionID i, epoch e *)
 | HRTick | HRTimeout
@@ -71,7 +78,7 @@ Inductive revent :=
 | GetStreamR (k : nat).
 
 Definition set_alive (p : pobj) (a : bool) : pobj :=
-  {| o_epoch := o_epoch p; o_alive := a; o_slot := o_slot p; o_by := o_by p |}.
+  {| o_epoch := o_epoch p; o_alive := a; o_slot := o_slot p; o_by := o_by p; o_pending := o_pending p |}.
 
 Definition kill_obj (os : list pobj) (o : nat) : list pobj :=
   match nth_error os o with Some p => upd os o (set_alive p false) | None => os end.
@@ -92,7 +99,7 @@ Definition watcher_of (s : rstate) (id : nat) : watcher := nth id (watchers s) {
 
 Definition set_watcher (s : rstate) (id : nat) (w : watcher) : rstate :=
   {| objs := objs s; pools := pools s; reserve := reserve s; r_state := r_state s; r_epoch := r_epoch s;
-     closed := closed s; watchers := upd (watchers s) id w; created := created s; bad := bad s; cprog := cprog s |}.
+     closed := closed s; watchers := upd (watchers s) id w; created := created s; bad := bad s; cprog := cprog s; check_early := check_early s |}.
 
 Definition in_range (s : rstate) (id : nat) : bool := (id <? length (watchers s))%nat.
 
@@ -106,12 +113,9 @@ Definition r_enabled (s : rstate) (ev : revent) : bool :=
   | TimerFires id => in_range s id && negb (closed s) &&
                      match w_pc (watcher_of s id) with WWait => true | _ => false end
   | Compare id _ => in_range s id && match w_pc (watcher_of s id) with WCompare => true | _ => false end
+  | Store id => in_range s id && match w_pc (watcher_of s id) with WStore => true | _ => false end
   | SessionLost o => obj_alive s o
-  | HREvent i _ _ =>
-      (* the event arrives on a live session whose sessionID is i: the current one or the parked one *)
-      (i <? length (pools s))%nat &&
-      (obj_alive s (pool_of s i) ||
-       match nth_error (reserve s) i with Some (Some o) => obj_alive s o | _ => false end)
+  | HREvent i _ _ => (i <? length (pools s))%nat   (* the handler is a posted lambda: it may run after its session died *)
   | HRTick | HRTimeout => r_state s =? st_hr
   | CloseStep =>
       match cprog s with
@@ -122,7 +126,7 @@ Definition r_enabled (s : rstate) (ev : revent) : bool :=
   | GetStreamR k => (k <? length (pools s))%nat
   end.
 
-Definition new_obj (e : Z) (slot : nat) (by_ : Z) : pobj := {| o_epoch := e; o_alive := true; o_slot := slot; o_by := by_ |}.
+Definition new_obj (e : Z) (slot : nat) (by_ : Z) : pobj := {| o_epoch := e; o_alive := true; o_slot := slot; o_by := by_; o_pending := None |}.
 
 Definition hr_event (s : rstate) (i : nat) (e : Z) (ok : bool) : rstate :=
   if closed s then s     (* sm.ctx.Err() != nil: a closed manager takes no part in a hot restart *)
@@ -131,7 +135,7 @@ Definition hr_event (s : rstate) (i : nat) (e : Z) (ok : bool) : rstate :=
     let s1 := if r_state s =? st_hr then s
               else {| objs := kill_reserved (reserve s) (objs s); pools := pools s;
                       reserve := repeat None (length (pools s)); r_state := st_hr; r_epoch := e;
-                      closed := closed s; watchers := watchers s; created := created s; bad := bad s; cprog := cprog s |} in
+                      closed := closed s; watchers := watchers s; created := created s; bad := bad s; cprog := cprog s; check_early := check_early s |} in
     match nth_error (reserve s1) i with
     | Some (Some _) => s1
     | _ =>
@@ -140,7 +144,7 @@ Definition hr_event (s : rstate) (i : nat) (e : Z) (ok : bool) : rstate :=
                 pools := upd (pools s1) i (length (objs s1));
                 reserve := upd (reserve s1) i (Some (pool_of s1 i));
                 r_state := r_state s1; r_epoch := r_epoch s1; closed := closed s1;
-                watchers := watchers s1; created := created s1; bad := bad s1; cprog := cprog s1 |}
+                watchers := watchers s1; created := created s1; bad := bad s1; cprog := cprog s1; check_early := check_early s1 |}
     end.
 
 Definition r_apply (s : rstate) (ev : revent) : rstate :=
@@ -152,38 +156,57 @@ Definition r_apply (s : rstate) (ev : revent) : rstate :=
       let w := watcher_of s id in
       if r_state s =? st_hr then set_watcher s id {| w_pc := WTop; w_pool := w_pool w |}
       else (* pool.close(): the session is closed already; the pooled streams are closed *)
-        set_watcher s id {| w_pc := WWait; w_pool := w_pool w |}
+        if check_early s && negb (pool_of s id =? w_pool w)%nat
+        then set_watcher s id {| w_pc := WTop; w_pool := w_pool w |}
+        else set_watcher s id {| w_pc := WWait; w_pool := w_pool w |}
   | WakeCtx id => set_watcher s id {| w_pc := WExit; w_pool := w_pool (watcher_of s id) |}
   | TimerFires id => set_watcher s id {| w_pc := WCompare; w_pool := w_pool (watcher_of s id) |}
   | Compare id ok =>
       let w := watcher_of s id in
-      if negb (pool_of s id =? w_pool w)%nat then
+      if negb (check_early s) && negb (pool_of s id =? w_pool w)%nat then
         (* sessionHadChangedByHotrestart := sm.pools[id] != pool  (identity of the pool object) *)
         set_watcher s id {| w_pc := WTop; w_pool := w_pool w |}
-      else if negb ok then set_watcher s id {| w_pc := WWait; w_pool := w_pool w |}   (* continue *)
+      else if negb ok then                                        (* dial failed: continue *)
+        if check_early s && negb (pool_of s id =? w_pool w)%nat
+        then set_watcher s id {| w_pc := WTop; w_pool := w_pool w |}
+        else set_watcher s id {| w_pc := WWait; w_pool := w_pool w |}
       else
         match nth_error (objs s) (w_pool w) with
         | None => set_watcher s id {| w_pc := WTop; w_pool := w_pool w |}
         | Some p =>
-            {| objs := upd (objs s) (w_pool w) {| o_epoch := r_epoch s; o_alive := true; o_slot := o_slot p; o_by := 2 |};
+            {| objs := upd (objs s) (w_pool w) {| o_epoch := o_epoch p; o_alive := o_alive p; o_slot := o_slot p;
+                                                  o_by := o_by p; o_pending := Some (r_epoch s) |};
                pools := pools s; reserve := reserve s; r_state := r_state s; r_epoch := r_epoch s; closed := closed s;
-               watchers := upd (watchers s) id {| w_pc := WTop; w_pool := w_pool w |};
-               created := S (created s);
-               bad := if (w_pool w =? pool_of s id)%nat then bad s else S (bad s); cprog := cprog s |}
+               watchers := upd (watchers s) id {| w_pc := WStore; w_pool := w_pool w |};
+               created := S (created s); bad := bad s; cprog := cprog s; check_early := check_early s |}
         end
+  | Store id =>
+      let w := watcher_of s id in
+      match nth_error (objs s) (w_pool w) with
+      | None => set_watcher s id {| w_pc := WTop; w_pool := w_pool w |}
+      | Some p =>
+          {| objs := upd (objs s) (w_pool w)
+                         {| o_epoch := match o_pending p with Some e => e | None => o_epoch p end;
+                            o_alive := true; o_slot := o_slot p; o_by := 2; o_pending := None |};
+             pools := pools s; reserve := reserve s; r_state := r_state s; r_epoch := r_epoch s; closed := closed s;
+             watchers := upd (watchers s) id {| w_pc := WTop; w_pool := w_pool w |};
+             created := created s;
+             bad := if (w_pool w =? pool_of s id)%nat then bad s else S (bad s); cprog := cprog s;
+             check_early := check_early s |}
+      end
   | SessionLost o =>
       {| objs := kill_obj (objs s) o; pools := pools s; reserve := reserve s; r_state := r_state s; r_epoch := r_epoch s;
-         closed := closed s; watchers := watchers s; created := created s; bad := bad s; cprog := cprog s |}
+         closed := closed s; watchers := watchers s; created := created s; bad := bad s; cprog := cprog s; check_early := check_early s |}
   | HREvent i e ok => hr_event s i e ok
   | HRTick =>
       if (count_some (reserve s) =? length (pools s))%nat then
         {| objs := objs s; pools := pools s; reserve := reserve s; r_state := st_default; r_epoch := r_epoch s;
-           closed := closed s; watchers := watchers s; created := created s; bad := bad s; cprog := cprog s |}
+           closed := closed s; watchers := watchers s; created := created s; bad := bad s; cprog := cprog s; check_early := check_early s |}
       else s
   | HRTimeout =>
       {| objs := kill_reserved (reserve s) (objs s); pools := pools s; reserve := repeat None (length (pools s));
          r_state := st_default; r_epoch := r_epoch s; closed := closed s; watchers := watchers s;
-         created := created s; bad := bad s; cprog := cprog s |}
+         created := created s; bad := bad s; cprog := cprog s; check_early := check_early s |}
   | CloseStep =>
       match cprog s with
       | [] => s
@@ -191,15 +214,15 @@ Definition r_apply (s : rstate) (ev : revent) : rstate :=
           match c with
           | CCancel =>
               {| objs := objs s; pools := pools s; reserve := reserve s; r_state := r_state s; r_epoch := r_epoch s;
-                 closed := true; watchers := watchers s; created := created s; bad := bad s; cprog := rest |}
+                 closed := true; watchers := watchers s; created := created s; bad := bad s; cprog := rest; check_early := check_early s |}
           | CWait =>
               {| objs := objs s; pools := pools s; reserve := reserve s; r_state := r_state s; r_epoch := r_epoch s;
-                 closed := closed s; watchers := watchers s; created := created s; bad := bad s; cprog := rest |}
+                 closed := closed s; watchers := watchers s; created := created s; bad := bad s; cprog := rest; check_early := check_early s |}
           | CCloseAll =>
               {| objs := kill_reserved (reserve s) (kill_reserved (map Some (pools s)) (objs s)); pools := pools s;
                  reserve := repeat None (length (pools s));
                  r_state := r_state s; r_epoch := r_epoch s; closed := closed s; watchers := watchers s;
-                 created := created s; bad := bad s; cprog := rest |}
+                 created := created s; bad := bad s; cprog := rest; check_early := check_early s |}
           end
       end
   | GetStreamR _ => s
@@ -213,10 +236,11 @@ Inductive gs_outcome := GsOk | GsErr | GsBlocked.
 Definition get_stream_r (s : rstate) (k : nat) : gs_outcome :=
   if obj_alive s (pool_of s k) then GsOk else GsErr.
 
-Definition r_init_prog (prog : list cstep) (n : nat) : rstate :=
+Definition r_init_gen (prog : list cstep) (early : bool) (n : nat) : rstate :=
   {| objs := map (fun i => new_obj 0 i 0) (seq 0 n); pools := seq 0 n; reserve := repeat None n;
      r_state := st_default; r_epoch := 0; closed := false;
-     watchers := repeat {| w_pc := WTop; w_pool := 0%nat |} n; created := 0; bad := 0; cprog := prog |}.
+     watchers := repeat {| w_pc := WTop; w_pool := 0%nat |} n; created := 0; bad := 0; cprog := prog; check_early := early |}.
+Definition r_init_prog (prog : list cstep) (n : nat) : rstate := r_init_gen prog false n.
 Definition r_init (n : nat) : rstate := r_init_prog close_prog n.
 
 Definition pending (s : rstate) : nat :=
